@@ -11,6 +11,7 @@ import XzVerif.Proofs.GoSrcTreeEnc
 import XzVerif.Proofs.GoSrcLen
 import XzVerif.Proofs.GoSrcDist
 import XzVerif.Proofs.GoSrcLit
+import XzVerif.Proofs.GoSrcOpEnc
 /-
   C02 — Everything the xz writer emits is a valid .xz file for other implementations.
 
@@ -282,6 +283,37 @@ theorem C02_source_literal_encoder (fuel : Nat) (c : GoSrc.T_literalCodec) (g : 
       GoSrc.literalCodec_Encode fuel c g s state mtch litState = Go.Res.panic "slice bounds out of range") :=
   ⟨fun hls => GoSrcP.literalCodec_Encode_refines fuel c g e Lim s state mtch litState tbl n rel rest htbl lr hls hn hcl hL hfuel,
    fun h hlt => GoSrcP.literalCodec_Encode_bounds fuel c g s state mtch litState h hlt⟩
+
+/-- **`encoder.writeLiteral` / `encoder.writeMatch` from the source** (lzma/encoder.go: the whole per-operation encoder —
+    the search of the rep registers, short rep, the isMatch / isRep / isRepG0 / isRepG0Long / isRepG1 / isRepG2 decisions,
+    length, distance and literal codecs, the rotation of the registers, the state transitions): one call = the path
+    `opEnc ctx op` of Codec/Lzma.lean through the checked Nat-level encoder + `St.apply`, where `op` is the model's
+    classification `W2.classify` of the match (Model/Writer2.lean); ErrLimit exactly where the checked encoder stops; the Go
+    state stays the model's `(s, tbl)`; never one of `writeMatch`'s two panics for an operation the encoder accepts. -/
+theorem C02_source_write_operations (fuel : Nat) (g : GoSrc.T_encoder) (s : St) (tbl : Tbl) (p : Props) (e : Rc.Enc) (Lim : Nat)
+    (pos : Nat) (bat : Nat → Nat)
+    (sr : GoSrcP.StRel g.state s tbl p) (rel : GoSrcP.EncRel g.re e Lim) (rest : e.Rest)
+    (hpos : (GoSrc.encoderDict_Pos g.dict).toNat = pos) (hposlt : pos < 2 ^ 62)
+    (hbat : ∀ dist : BitVec 64, GoSrc.encoderDict_ByteAt g.dict dist = Go.Res.ok (BitVec.ofNat 8 (bat dist.toInt.toNat)))
+    (hbat256 : ∀ k, bat k < 256)
+    (hcl : e.cacheLen + 400 < 2 ^ 62) (hL : Lim < 2 ^ 63) (hfuel : e.cacheLen + 400 ≤ fuel) :
+    (∀ l : GoSrc.T_lit,
+      match GoSrcP.encPathL Lim tbl e (opEnc (GoSrcP.ctxOf p s pos bat) (.lit l.b.toNat)) with
+      | none => ∃ g', GoSrc.encoder_writeLiteral fuel g l = Go.Res.ok (Go.Err.named "ErrLimit", g')
+      | some (tbl', e') =>
+        ∃ g', GoSrc.encoder_writeLiteral fuel g l = Go.Res.ok (Go.Err.nil, g')
+          ∧ GoSrcP.StRel g'.state (s.apply (.lit l.b.toNat)) tbl' p ∧ GoSrcP.EncRel g'.re e' Lim ∧ e'.Rest ∧ g'.dict = g.dict) ∧
+    (∀ (m : GoSrc.T_match) (dist n : Nat), m.distance = BitVec.ofNat 64 dist → m.n = BitVec.ofNat 64 n →
+      1 ≤ dist → dist ≤ 2 ^ 32 → ((2 ≤ n ∧ n ≤ 273) ∨ (dist - 1 = s.r0 ∧ n = 1)) →
+      let op := W2.classify s (.mtch dist n)
+      match GoSrcP.encPathL Lim tbl e (opEnc (GoSrcP.ctxOf p s pos bat) op) with
+      | none => ∃ g', GoSrc.encoder_writeMatch fuel g m = Go.Res.ok (Go.Err.named "ErrLimit", g')
+      | some (tbl', e') =>
+        ∃ g', GoSrc.encoder_writeMatch fuel g m = Go.Res.ok (Go.Err.nil, g')
+          ∧ GoSrcP.StRel g'.state (s.apply op) tbl' p ∧ GoSrcP.EncRel g'.re e' Lim ∧ e'.Rest ∧ g'.dict = g.dict) :=
+  ⟨fun l => GoSrcP.writeLiteral_refines fuel g l s tbl p e Lim pos bat sr rel rest hpos hposlt hbat hbat256 hcl hL hfuel,
+   fun m dist n hd hn hd1 hd2 hnr =>
+     GoSrcP.writeMatch_refines fuel g m s tbl p e Lim pos bat dist n sr rel rest hd hn hd1 hd2 hnr hpos hposlt hbat hbat256 hcl hL hfuel⟩
 
 /-- the checked path is the codec's path whenever the limit is not hit (`encPath` of Codec/LzmaDec.lean) -/
 theorem C02_source_checked_path (L : Nat) (t : Tbl) (e : Rc.Enc) (π : Path) (t' : Tbl) (e' : Rc.Enc)
